@@ -258,26 +258,61 @@ func main() {
 			jcase{Kind: "proposal", Cfg: cfg, Recs: rs, Code: code, Value: v, Str: s, OK: err == nil, Err: e})
 	}
 	ms := govkeeper.NewMsgServerImpl(k)
-	doMsg := func(cfg, rs int, allowed bool, nw *govtypes.NetworkProperties, how string) {
+	// who sends the whole-record message: the gate must follow "blacklist beats whitelist" over the
+	// sender's own lists and the lists of its roles (0-2 hold the change permission, 3-7 do not)
+	doMsg := func(cfg, rs int, kind int, nw *govtypes.NetworkProperties, how string) {
 		c := withState(cfg, rs)
 		proposer := sdk.AccAddress("proposer____________")
-		if allowed {
-			actor := govtypes.NewDefaultActor(proposer)
-			if err := k.AddWhitelistPermission(c, actor, govtypes.PermChangeTxFee); err != nil {
+		perm := govtypes.PermChangeTxFee
+		must := func(err error) {
+			if err != nil {
 				panic(err)
 			}
-		} else if r.Chance(60) {
+		}
+		mkRole := func(sid string, wl, bl bool) uint64 {
+			id := k.CreateRole(c, sid, sid)
+			if wl {
+				must(k.WhitelistRolePermission(c, id, perm))
+			}
+			if bl {
+				must(k.BlacklistRolePermission(c, id, perm))
+			}
+			return id
+		}
+		actor := govtypes.NewDefaultActor(proposer)
+		allowed := false
+		switch kind {
+		case 0, 1: // personally whitelisted
+			must(k.AddWhitelistPermission(c, actor, perm))
+			allowed = true
+		case 2: // through a role
+			k.SaveNetworkActor(c, actor)
+			must(k.AssignRoleToAccount(c, proposer, mkRole("c19_wl", true, false)))
+			allowed = true
+		case 3: // personally whitelisted, but a role of the sender blacklists it
+			must(k.AddWhitelistPermission(c, actor, perm))
+			must(k.AssignRoleToAccount(c, proposer, mkRole("c19_bl", false, true)))
+		case 4: // whitelisted through a role, personally blacklisted
+			k.SaveNetworkActor(c, actor)
+			must(k.AssignRoleToAccount(c, proposer, mkRole("c19_wl", true, false)))
+			a, _ := k.GetNetworkActorByAddress(c, proposer)
+			must(k.AddBlacklistPermission(c, a, perm))
+		case 5: // one role whitelists, another blacklists
+			k.SaveNetworkActor(c, actor)
+			must(k.AssignRoleToAccount(c, proposer, mkRole("c19_wl", true, false)))
+			must(k.AssignRoleToAccount(c, proposer, mkRole("c19_bl", false, true)))
+		case 6:
 			// holds every OTHER permission (directly and through role sudo), but not the change permission
-			actor := govtypes.NewDefaultActor(proposer)
 			k.SaveNetworkActor(c, actor)
 			for pv := 1; pv <= 66; pv++ {
-				if govtypes.PermValue(pv) == govtypes.PermChangeTxFee {
+				if govtypes.PermValue(pv) == perm {
 					continue
 				}
 				a, _ := k.GetNetworkActorByAddress(c, proposer)
 				_ = k.AddWhitelistPermission(c, a, govtypes.PermValue(pv))
 			}
 			_ = k.AssignRoleToAccount(c, proposer, govtypes.RoleSudo)
+		default: // no record at all
 		}
 		var err error
 		p := hx.Try(func() {
@@ -292,7 +327,7 @@ func main() {
 			e = err.Error()
 		}
 		emit(fmt.Sprintf("CMsg %d %d %s %s %s %s", cfg, rs, hx.B(allowed), patchCoq(cfgs[cfg], nw), hx.B(err == nil), patchCoq(cfgs[cfg], after)),
-			jcase{Kind: "msg", Cfg: cfg, Recs: rs, Allowed: allowed, OK: err == nil, Err: e, Mutated: how})
+			jcase{Kind: "msg", Cfg: cfg, Recs: rs, Allowed: allowed, OK: err == nil, Err: e, Mutated: fmt.Sprintf("sender kind %d; %s", kind, how)})
 	}
 	doGen := func(nw *govtypes.NetworkProperties, how string) {
 		c, _ := base.CacheContext()
@@ -394,6 +429,17 @@ func main() {
 		}
 	}
 
+	// ---- every kind of sender with a valid whole-record request, from the default and a mutated record
+	for kind := 0; kind < 8; kind++ {
+		for rep := 0; rep < 3; rep++ {
+			nw, how := mutate(r, cfgs[rep%len(cfgs)], 0)
+			if k.ValidateNetworkProperties(base, nw) != nil {
+				nw, how = clone(cfgs[1%len(cfgs)]), "another valid record"
+			}
+			doMsg(rep%8, 0, kind, nw, how)
+		}
+	}
+
 	// ---- random cases
 	for i := 0; i < *n; i++ {
 		cfg, rs := r.Intn(len(cfgs)), r.Intn(len(recsets))
@@ -416,7 +462,7 @@ func main() {
 			doProp(cfg, rs, code, v, s)
 		case 7, 8:
 			nw, how := mutate(r, cfgs[r.Intn(len(cfgs))], 30)
-			doMsg(cfg, rs, r.Chance(70), nw, how)
+			doMsg(cfg, rs, r.Intn(8), nw, how)
 		default:
 			nw, how := mutate(r, cfgs[r.Intn(len(cfgs))], 30)
 			doGen(nw, how)
